@@ -1698,6 +1698,79 @@ func checkClientTableDiscipline(c *Ctx, rule string) {
 	if nd == 0 {
 		c.Unresolved(rule, "no deleter of a single address of the connection table")
 	}
+	// (d) an entry is never overwritten: a connection is registered under an address only on the miss side of a
+	// lookup of that address (made under the table mutex). The goroutine of a connection deletes the table entry of
+	// its address when it ends - by address: if a dying connection can be replaced in the table before it has ended,
+	// its cleanup deletes the replacement, which lives on in no table and is never stopped by Stop.
+	ni := 0
+	for _, fn := range p.FuncsIn(redisPkg) {
+		if p.isTestFn(fn) {
+			continue
+		}
+		eachInstr(fn, func(b *ssa.BasicBlock, _ int, in ssa.Instruction) {
+			mu2, ok := in.(*ssa.MapUpdate)
+			if !ok || !isTableMap(mu2.Map.Type()) {
+				return
+			}
+			// a copy of the table (cpy[k] = v while ranging over it) registers nothing
+			if derives(mu2.Value, func(v ssa.Value) bool {
+				if nx, ok := v.(*ssa.Next); ok {
+					if rg, ok := nx.Iter.(*ssa.Range); ok && isTableMap(rg.X.Type()) {
+						return true
+					}
+				}
+				return false
+			}) {
+				return
+			}
+			ni++
+			site := fmt.Sprintf("%s registers a connection only when the address has none#%d", fnKey(fn), ni)
+			var missAt func(b *ssa.BasicBlock, key ssa.Value, depth int) bool
+			missAt = func(b *ssa.BasicBlock, key ssa.Value, depth int) bool {
+				for _, a := range atomsAt(b, 0) {
+					if a.cmp != nil || a.truth {
+						continue
+					}
+					ex, isEx := a.val.(*ssa.Extract)
+					if !isEx || ex.Index != 1 {
+						continue
+					}
+					lk, isLk := ex.Tuple.(*ssa.Lookup)
+					if !isLk || !lk.CommaOk || !isTableMap(lk.X.Type()) {
+						continue
+					}
+					if stripConv(resolveCell(lk.Index)) == stripConv(resolveCell(key)) && le.before[lk][mu] != 0 {
+						return true
+					}
+				}
+				// the insert lives in a helper that is handed the address: every caller is on the miss side
+				if prm, isPrm := stripConv(resolveCell(key)).(*ssa.Parameter); isPrm && depth < 2 {
+					g := prm.Parent()
+					idx := paramIndex(g, prm)
+					edges := p.callersOf(g)
+					if idx < 0 || len(edges) == 0 {
+						return false
+					}
+					for _, ed := range edges {
+						if p.isTestFn(ed.Caller.Func) {
+							continue
+						}
+						args := ed.Site.Common().Args
+						if idx >= len(args) || !missAt(ed.Site.Block(), args[idx], depth+1) {
+							return false
+						}
+					}
+					return true
+				}
+				return false
+			}
+			missed := missAt(b, mu2.Key, 0)
+			c.Check(missed, rule, site, in.Pos(), "the insert is on the miss side of a comma-ok lookup of the same address made under "+mu.Name(), "a connection can be registered under an address that still has one (the lookup's hit is overruled by a further condition, or there is no lookup under the mutex): the connection it replaces is still winding down, and when its goroutine ends it deletes the table entry of its address - the replacement. That one lives on in no table: the stop sweep never stops it, its socket and goroutines outlive Stop")
+		})
+	}
+	if ni == 0 {
+		c.Unresolved(rule, "no insert into the connection table")
+	}
 }
 
 // checkDrainKeepsAccepted (C09.R11, C17.R10): draining stops the accepting of new connections and keeps the established
